@@ -109,7 +109,14 @@ Definition cfg_of (d : cfgd) : config :=
 (* ---------- D3: the composed proxy function martian is given (hp.proxy.ProxyURL), called directly *)
 Record fcase := { fc_cfg : cfgd; fc_t : target; fc_out : presult }.
 Definition fcase_model_ok (c : fcase) : bool := presult_eqb (proxy_for (cfg_of (fc_cfg c)) (fc_t c)) (fc_out c).
-Definition fcase_prop_ok (c : fcase) : bool := hop_eqb (presult_hop (fc_out c)) (spec_hop (cfg_of (fc_cfg c)) (fc_t c)).
+(* the hop the function names is the spec's, and (unless an external UpstreamProxyFunc produced it) a URL it
+   hands to its two consumers always has a scheme both of them support *)
+Definition fcase_prop_ok (c : fcase) : bool :=
+  hop_eqb (presult_hop (fc_out c)) (spec_hop (cfg_of (fc_cfg c)) (fc_t c)) &&
+  match fc_out c, d_upfunc (fc_cfg c) with
+  | PUrl sch _, None => match ptype_of_scheme sch with Some _ => true | None => false end
+  | _, _ => true
+  end.
 
 (* ---------- E: the real proxy in-process with scripted parties *)
 (* what was seen for one request: every address handed to the dialer (after connect-to), and what the
